@@ -48,6 +48,7 @@ inductive Err
   | invalidRealloc          -- ProgramError::InvalidRealloc
   | ioError                 -- ErrorCode::IoError              = Custom(9001) (every borsh error)
   | expectedWritable        -- ErrorCode::ExpectedWritable     = Custom(1000)
+  | emptyFunderCache        -- ErrorCode::EmptyFunderCache     = Custom(1004)
   | emptyRecipientCache     -- ErrorCode::EmptyRecipientCache  = Custom(1005)
   | insufficientFunds       -- ProgramError::InsufficientFunds
 deriving Repr, DecidableEq
